@@ -59,6 +59,8 @@ def run_mc(ctx):
     # Dout >= 2 (the outbound bubble-up needs it); model-only sets where validate-compatible ones are too big for TLC
     for par, np_ in ([((4, 3, 5, 1, 2), 6)] if not ctx.thorough else [((4, 3, 5, 1, 2), 6), ((4, 3, 6, 1, 2), 7), ((5, 3, 6, 2, 2), 7)]):
         jobs.append(("hb-%d%d%d%d%d" % par, mc_constants(par, np_, "dout", 0, 1, joined="{TRUE}", OppTicks=1), None, 1500, True))
+    # every heartbeat an opportunistic tick, Dscore < D/2 (members the cut removes may score above the kept median)
+    jobs.append(("hb-42511-opp", mc_constants((4, 2, 5, 1, 1), 6, "micro" if not ctx.thorough else "tiny", 0, 1, joined="{TRUE}", OppTicks=1, OppThr=2, OppPeers=2), None, 1500, True))
     # events: one (thorough: two) arbitrary event(s) and a heartbeat from every class state, joined or not
     if not ctx.thorough:
         jobs.append(("ev-21310", mc_constants((2, 1, 3, 1, 0), 3, "tiny", 1, 1), None, 600, True))
@@ -368,6 +370,16 @@ def directed_scenarios(rng, thorough):
         add("join-fresh", par,
             [cls("in", 1), cls("out", 0), cls("out", 2, direct=True), cls("out", 2, bo="active"), cls("in", -1), cls("out", 1, cap=False)],
             [ev("leave"), ev("join"), HB, ev("leave"), HB], joined=True)
+    # a fanout member leaves (closed, blacklisted, our stream reset) and the topic is joined before / after the next heartbeat:
+    # Join must not promote the departed peer
+    for par in [std, (2, 1, 3, 1, 0), (4, 3, 5, 2, 1)]:
+        fan = [cls("in", 1, member=True), cls("out", 1, member=True), cls("out", 2, member=True), cls("out", 0), cls("in", 0)]
+        add("join-after-fanout-member-left", par, fan, [ev("down", 1, "none"), ev("join"), HB, HB], joined=False)
+        add("join-after-fanout-member-left", par, fan, [ev("down", 2, "none"), ev("down", 3, "none"), ev("join"), HB, HB], joined=False)
+        add("join-after-fanout-member-left", par, fan, [ev("down", 1, "none"), ev("publish"), ev("join"), HB], joined=False)
+        add("join-after-fanout-member-left", par, fan, [ev("down", 3, "none"), HB, ev("join"), HB], joined=False)
+        add("join-after-fanout-member-left", par, fan, [raw(a="blacklist", p="p2"), ev("join"), HB, HB], joined=False)
+        add("join-after-fanout-member-left", par, fan, [raw(a="resetIn", p="p2"), raw(a="adv", ms=30), raw(a="resetIn", p="p2"), ev("join"), HB, HB], joined=False)
     # departure of mesh members (connection closed), then the mesh recovers
     for par in [std, (2, 1, 3, 1, 0)]:
         add("departure", par,
@@ -423,6 +435,36 @@ def cut_cycle_scenario(rng, par, cycles, equal_scores):
             evs.append(ev("graft", i + 1))
     evs.append(HB)
     return Builder(par, rng, "cut-cycles-dout2", pruneBackoffS=1).scenario(init_from_classes(classes, True), evs)
+
+
+FIRST_CUT_PARAMS = [(4, 2, 5, 1, 1), (4, 2, 5, 0, 1), (6, 4, 8, 2, 2), (6, 4, 7, 1, 2)]
+
+
+def first_cut_scenario(rng, par, after_sweep):
+    """The first over-subscription cut a topic ever sees (no backoff map for the topic yet; or, after_sweep, the map was
+    emptied by clearBackoff at tick 15), with every heartbeat an opportunistic-graft tick, the median always below the
+    threshold and Dscore below D/2, so that members the cut removes score above the median of the kept ones: the later
+    graft steps of the same heartbeat must treat them as backed off."""
+    d, dlo, dhi, dscore, dout = par
+    n = dhi + rng.choice([1, 2])
+    scores = rng.sample(range(1, 3 * n), n)
+    n_in = rng.randint(max(0, n - 4), min(dhi, n - 1))           # inbound GRAFTs are admitted only below Dhi: none is refused
+    dirs = ["in"] * n_in + ["out"] * (n - n_in)
+    rng.shuffle(dirs)
+    outsiders = [cls("out", 4 * n), cls("in", 0)] if rng.random() < 0.75 else [cls("in", 0)]
+    b = Builder(par, rng, "first-cut-opportunistic", opp=(1, 4, 100))
+    if not after_sweep:
+        classes = [cls(dirs[i], scores[i], member=True) for i in range(n)] + outsiders
+        return b.scenario(init_from_classes(classes, True), [HB, HB])
+    first = d                                                    # D members to begin with: the heartbeats leave them alone
+    order = sorted(range(n), key=lambda i: scores[i], reverse=True)
+    early, late = order[:first], order[first:]
+    classes = [cls(dirs[i], scores[i] if i in early else 0, member=(i in early)) for i in range(n)] + [cls("out", 0, bo="expired")]
+    evs = [HB] * 16
+    for i in sorted(late, key=lambda i: dirs[i] != "in"):
+        evs += [ev("score", i + 1, str(scores[i])), ev("graft", i + 1)]
+    evs += [HB, HB]
+    return b.scenario(init_from_classes(classes, True), evs)
 
 
 def two_topic_scenario(rng, par, deterministic):
@@ -509,7 +551,13 @@ def py_random_scenario(rng, par, n, steps, tag):
 def gen_scenarios(ctx):
     """TLC-generated scenarios (GenMesh, -simulate, seeded)."""
     pars = list(REPLAY_PARAMS) + (REPLAY_PARAMS_THOROUGH if ctx.thorough else [])
-    per = 30 if not ctx.thorough else 220
+    per = 45 if not ctx.thorough else 180
+    if not ctx.thorough:
+        # every TLC start waits for a system-wide slot: four generator runs per quick run (the all-zero set always, the
+        # others rotate with the seed; the directed families cover every set in every run)
+        rest = [x for x in pars if x != (0, 0, 0, 0, 0)]
+        k = ctx.seed % len(rest)
+        pars = [(0, 0, 0, 0, 0)] + (rest[k:] + rest[:k])[:3]
     rng = random.Random(ctx.seed * 7919 + 1)
     jobs = []
     for par in pars:
@@ -655,7 +703,7 @@ def slim(ln, g):
     return {"i": ln["i"], "scn": g, "act": ln["act"], "hb": ln["hb"], "ev": evs, "out": out, "st": st}
 
 
-def validate(ctx, traces, name, chunk_lines=2500):
+def validate(ctx, traces, name, chunk_lines=6000):
     """Runs MeshTrace over the traces (dict global scenario index -> lines). Returns (viols, covs, states)."""
     order = sorted(traces)
     chunks, cur, n = [], [], 0
@@ -721,7 +769,7 @@ def record_violations(ctx, viols, traces, scns, source):
 def run_walks(ctx):
     """Seeded random walks over the whole action alphabet (TestRouterWalk) under several parameter sets."""
     pars = [(4, 2, 5, 2, 1), (2, 1, 3, 1, 0), (4, 3, 5, 2, 1)] + ([(0, 0, 0, 0, 0), (3, 2, 4, 4, 0), (4, 2, 4, 2, 1)] if ctx.thorough else [])
-    walks, steps = (6, 60) if not ctx.thorough else (60, 90)
+    walks, steps = (6, 60) if not ctx.thorough else (50, 90)
 
     def one(k):
         par = pars[k]
@@ -806,10 +854,12 @@ OBLIGATIONS = {
     "graft-dropped": "GRAFT dropped on a full queue and parked for retry",
     "graft-retried": "parked GRAFT re-sent by a heartbeat",
     "hb-graft-and-prune-same-peer": "one heartbeat grafted a peer in one topic and pruned it in another",
+    "join-fanout-after-member-left": "Join promoted a fanout set after a member of it had left (no heartbeat in between)",
 }
 # obligations with a minimum count: (tag, quick, thorough, what)
 OBLIGATION_COUNTS = [
-    ("hb-cut-dout2", 150, 600, "over-subscription cuts under Dout >= 2"),
+    ("hb-cut-then-add-no-backoff-map", 6, 25, "heartbeats that cut a mesh and then grafted in the same topic while the topic had no backoff map when they began"),
+    ("hb-cut-dout2", 150, 500, "over-subscription cuts under Dout >= 2"),
     ("hb-cut-outbound-quota-binding", 40, 160, "cuts under Dout >= 2 that kept exactly Dout of more outbound members next to inbound ones (fewer than Dout in the selection, others rotated in)"),
 ]
 
@@ -824,8 +874,11 @@ def run(ctx):
     scns = directed_scenarios(rng, ctx.thorough)
     # Dout >= 2: many over-subscribed meshes of mixed direction, equal and distinct scores (the outbound bubble-up loops)
     for par in DOUT2_PARAMS:
-        for k in range(10 if not ctx.thorough else 40):
+        for k in range(10 if not ctx.thorough else 30):
             scns.append(cut_cycle_scenario(rng, par, 10, equal_scores=(k % 2 == 0)))
+    # the first cut of a topic (no backoff map yet) in a heartbeat that also grafts opportunistically
+    for k in range(24 if not ctx.thorough else 100):
+        scns.append(first_cut_scenario(rng, FIRST_CUT_PARAMS[k % len(FIRST_CUT_PARAMS)], after_sweep=(k % 8 == 7)))
     # two joined topics: the same peer grafted in one and pruned in the other by one heartbeat
     for par in [(4, 2, 5, 4, 0), (3, 2, 4, 3, 0)]:
         scns.append(two_topic_scenario(rng, par, True))       # D = Dscore: the cut keeps exactly the best, the outcome is certain
